@@ -92,7 +92,7 @@ class GridSearchResult(AbstractGridSearchResult):
         self.no_steps = len(lower_limits_lists)
 
         self.lower_limits_lists = GridList(lower_limits_lists, self.shape)
-        self.side_length = int(self.no_steps ** (1 / self.no_dimensions))
+        self.side_length = int(round(self.no_steps ** (1 / self.no_dimensions)))
         self.step_size = 1 / self.side_length
         self.grid_priors = grid_priors
 
@@ -131,7 +131,7 @@ class GridSearchResult(AbstractGridSearchResult):
         The upper values for each grid square
         """
         return [
-            [limit + self.step_size for limit in limits]
+            [min(limit + self.step_size, 1.0) for limit in limits]
             for limits in self.lower_limits_lists
         ]
 
@@ -181,7 +181,9 @@ class GridSearchResult(AbstractGridSearchResult):
 
     @property
     def shape(self):
-        return self.no_dimensions * (int(self.no_steps ** (1 / self.no_dimensions)),)
+        return self.no_dimensions * (
+            int(round(self.no_steps ** (1 / self.no_dimensions))),
+        )
 
     @property
     def best_samples(self):
